@@ -533,9 +533,156 @@ def c15(driver):
     return mon
 
 
+def c12(driver):
+    """Held-back and finished pull requests are left alone; a lifted hold
+    lets the next evaluation proceed.  Pull request 1 is the subject."""
+    import re
+    from .faults import user_commits
+
+    def held(state):
+        """Reason why PR 1 is on hold in this state, or None."""
+        pr1 = [p for p in state['prs'] if p['id'] == 1][0]
+        if pr1['state'] != 'OPEN':
+            return 'pull request is ' + pr1['state']
+        by_id = {p['id']: p for p in state['prs']}
+        for cid, user, text in state['comments']:
+            if cid != 1 or user == ROBOT or not text.startswith('@robot'):
+                continue
+            words = text.replace('@robot', ' ').split()
+            if 'wait' in words:
+                return 'wait'
+            for wd in words:
+                m = re.match(r'^after_pull_request=(\d+)$', wd)
+                if m:
+                    dep = by_id.get(int(m.group(1)))
+                    if dep is None:
+                        return 'dependency on unknown pull request'
+                    if dep['state'] != 'MERGED':
+                        return 'dependency on %s pull request %d' % (
+                            dep['state'], dep['id'])
+        return None
+
+    def mon(w, pre, ev, obs, post):
+        if obs.get('status') is None and ev[0] != 'seq':
+            return [], {}
+        reason = held(pre)
+        pr1 = [p for p in pre['prs'] if p['id'] == 1][0]
+        src = pr1['src']
+        h0, h1 = heads(pre), heads(post)
+        out, stats = [], {}
+        if reason:
+            stats['c12_evaluations_on_hold'] = 1
+            new_w = [b for b in h1 if b not in h0 and wref_parts(b) and
+                     wref_parts(b)[1] == src]
+            moved_w = [b for b in h1 if b in h0 and h0[b] != h1[b] and
+                       wref_parts(b) and wref_parts(b)[1] == src]
+            new_q = [b for b in h1 if b not in h0 and
+                     b.startswith('q/w/1/')]
+            new_children = [p['id'] for p in post['prs']
+                            if p['author'] == ROBOT and
+                            p['id'] not in {q['id'] for q in pre['prs']} and
+                            wref_parts(p['src']) and
+                            wref_parts(p['src'])[1] == src]
+            landed = []
+            tip = h0.get(src) or pr1.get('frozen')
+            if tip and pr1['state'] != 'MERGED':
+                commits = user_commits(w, tip)
+                for b, s in dests(post).items():
+                    old = dests(pre).get(b)
+                    for c in commits[:1]:
+                        if w.is_ancestor(c, s) and not (
+                                old and w.is_ancestor(c, old)):
+                            landed.append(b)
+            already_queued = any(b.startswith('q/w/1/') for b in h0)
+            if new_w or moved_w or new_q or new_children or landed:
+                fp = 'held:%s:%s' % (
+                    reason.split(' pull request')[0],
+                    'merged-from-queue' if landed and already_queued and
+                    not (new_w or new_q or new_children) else 'progress')
+                out.append({'property': 'C12', 'fingerprint': fp, 'msg':
+                            'pull request 1 is on hold (%s) but %s created '
+                            'integration branches %s, updated %s, queue '
+                            'entries %s, integration PRs %s, landed on %s '
+                            '(job status %s)' % (
+                                reason, ev, new_w, moved_w, new_q,
+                                new_children, landed, obs.get('status'))})
+        elif ev == ['eval_pr', 1]:
+            stats['c12_evaluations_free'] = 1
+            status = obs.get('status')
+            if status in ('AfterPullRequest', 'IncorrectPullRequestNumber'):
+                out.append({'property': 'C12', 'msg':
+                            'no hold is in place but the evaluation ended '
+                            '%s' % status})
+            if status == 'NothingToDo':
+                pr1p = [p for p in post['prs'] if p['id'] == 1][0]
+                queued = any(b.startswith('q/w/1/') for b in h0)
+                if pr1p['state'] == 'OPEN' and not queued:
+                    out.append({'property': 'C12', 'msg':
+                                'no hold is in place, the pull request is '
+                                'open, but the evaluation did nothing'})
+        return out, stats
+    return mon
+
+
+def c12_pairs(driver):
+    """Pull requests between branches Bert-E does not handle get no comment,
+    no branch, no pull request."""
+    HANDLED_SRC = ('development', 'stabilization') + (
+        'improvement', 'bugfix', 'feature', 'project', 'documentation',
+        'design', 'dependabot', 'epic', 'bug')
+
+    def kind_ok(name, kinds, versioned):
+        head, _, rest = name.partition('/')
+        if head not in kinds or not rest:
+            return False
+        if head in versioned:
+            parts = rest.split('.')
+            want = {'development': (1, 2), 'stabilization': (3,),
+                    'hotfix': (3,)}[head]
+            return len(parts) in want and all(p.isdigit() for p in parts)
+        return True
+
+    def mon(w, pre, ev, obs, post):
+        if ev[0] != 'seq' or ev[3][0] != 'open_raw':
+            return [], {}
+        src, dst = ev[3][1], ev[3][2]
+        handled = kind_ok(src, HANDLED_SRC,
+                          ('development', 'stabilization')) and \
+            kind_ok(dst, ('development', 'stabilization', 'hotfix'),
+                    ('development', 'stabilization', 'hotfix'))
+        stats = {'c12_pairs': 1,
+                 'c12_pairs_handled' if handled else 'c12_pairs_foreign': 1}
+        if handled:
+            return [], stats
+        out = []
+        h0, h1 = dict(heads(pre)), heads(post)
+        expect = dict(h0)
+        for b in (src, dst):
+            if b not in expect and b in h1:
+                expect[b] = h1[b]
+        if h1 != expect:
+            diff = sorted(set(h1) ^ set(expect)) + sorted(
+                b for b in h1 if b in expect and h1[b] != expect[b])
+            out.append({'property': 'C12', 'msg':
+                        'pull request %s -> %s is none of Bert-E\'s business '
+                        'but branches changed: %s' % (src, dst, diff)})
+        if post['comments']:
+            out.append({'property': 'C12', 'msg':
+                        'pull request %s -> %s is none of Bert-E\'s business '
+                        'but it commented: %r (job status %s)' % (
+                            src, dst, post['comments'][0][2][:70],
+                            obs.get('status'))})
+        if len(post['prs']) != 1:
+            out.append({'property': 'C12', 'msg':
+                        'pull request %s -> %s: %d pull requests afterwards'
+                        % (src, dst, len(post['prs']))})
+        return out, stats
+    return mon
+
+
 def driver_history(w, driver):
     return []
 
 
 REGISTRY = {'c01': c01, 'c03': c03, 'c06': c06, 'c08': c08, 'c19': c19,
-            'c15': c15}
+            'c15': c15, 'c12': c12, 'c12_pairs': c12_pairs}
